@@ -51,14 +51,14 @@ EXPECTED_CLOSURE = {
 # the closure of makePostponedTrustDecisions' first continuation after the repair proposed for finding C18-F1
 REPAIRED_CLOSURE = {'Atm_makePostponedTrustDecisions_k0': ['encryption', 'senderKeyIds', 'promise']}
 # what the lemma harnesses hand to a continuation for its OWN parameters (the answer of the operation it was registered on)
-OWN_ARGS = {'senderKeyTrustLevel': 'stl', 'securityPolicy': 'policy', 'keysForPostponedTrustDecisions': '&R', 'modifiedKeys': '&M'}
-STORAGE_OPS = ['TrustManager_trustLevel', 'TrustManager_setTrustLevel_keys', 'TrustManager_setTrustLevel_owners', 'TrustManager_securityPolicy',
+OWN_ARGS = {'senderKeyTrustLevel': 'stl', 'isSenderKeyAuthenticated': 'hk', 'securityPolicy': 'policy', 'keysForPostponedTrustDecisions': '&R', 'modifiedKeys': '&M'}
+STORAGE_OPS = ['TrustManager_trustLevel', 'TrustManager_hasKey', 'TrustManager_setTrustLevel_keys', 'TrustManager_setTrustLevel_owners', 'TrustManager_securityPolicy',
                'Storage_setTrustLevel_keys', 'Storage_setTrustLevel_owners', 'Storage_trustLevel',
                'Storage_addKeysForPostponedTrustDecisions', 'Storage_removePostponedBySenderKeys', 'Storage_removePostponedByKeyIds', 'Storage_removeAllPostponed',
                'Storage_keysForPostponedTrustDecisions']
-GHOST_SCALARS = ['g_e', 'g_o', 'g_k', 'g_s', 'gh_own_jid', 'gh_own_bare', 'gh_tme', 'gh_named_t', 'gh_named_d', 'g_i', 'g_j', 'g_i2', 'g_j2',
+GHOST_SCALARS = ['g_e', 'g_o', 'g_k', 'g_s', 'gh_own_jid', 'gh_own_bare', 'gh_sender_tl', 'gh_tme', 'gh_named_t', 'gh_named_d', 'g_i', 'g_j', 'g_i2', 'g_j2',
                  'tl', 'pp', 'gh_promises']
-GHOST_RECORDS = ['G_fin', 'G_tlq', 'G_stl', 'G_stlo', 'G_pol', 'G_add', 'G_rms', 'G_rmk', 'G_rma', 'G_get', 'G_mtd', 'G_auth', 'G_dis', 'G_datk', 'G_mp']
+GHOST_RECORDS = ['G_fin', 'G_tlq', 'G_hk', 'G_stl', 'G_stlo', 'G_pol', 'G_add', 'G_rms', 'G_rmk', 'G_rma', 'G_get', 'G_mtd', 'G_auth', 'G_dis', 'G_datk', 'G_mp']
 FINDING = 'C18-F1'
 
 
@@ -144,6 +144,7 @@ def build(work, tier):
         for cont in parent_lw.conts:
             got = [c['name'] for c in cont.captures]
             closure_defines.extend('HAS_%s_%s' % (cont.name, g) for g in got)
+            closure_defines.extend('OWN_%s_%s' % (cont.name, c.get('name')) for c in cont.op['inner'] if c.get('kind') == 'ParmVarDecl' and c.get('name'))
             want = EXPECTED_CLOSURE.get(cont.name, ['promise'])
             if cont.name in REPAIRED_CLOSURE and sorted(got) == sorted(REPAIRED_CLOSURE[cont.name]):
                 closure_defines.append('CLOSURE_HAS_SENDER_KEYS')
